@@ -8,6 +8,9 @@ NA = {
 PENDING = "check under construction in this build round (DESIGN.md section 8 build order); not claimed until its check is committed"
 
 CHECKS = {
+ "C02": ("E-read", "exploration", "buffering primitives (shuffle buffer, round robin, LazyPool composition; sync and async) and every iteration interface over generated datasets with a counting process_record; LazyPool path under the seeded baton scheduler, executor path on a simulated executor, async path on a virtual-time loop with seeded I/O completion order; Rust and tf.data observed as real uncontrolled executions", "Rust worker threads and tf.data threads are not scheduled by the simulator (multiset assertions only); SimExecutor is a stub", "deterministic simulation (seeded thread/IO-completion schedules) of the real reader code against a reference model", "3/C02"),
+ "C03": ("E-read", "exploration", "shuffle=0 sequences of all interfaces compared across parallelism, passes, reopen and seeded completion orders; write-order oracle from the reference model with multi-writer sessions run on the simulated process pool", "cross-session order is not asserted (the property does not fix it); Rust/tf.data uncontrolled", "deterministic simulation (seeded completion orders of executor tasks, async reads and simulated writer processes) + reference-model order oracle", "3/C03"),
+ "C06": ("E-crash", "fault_enumeration", "every file-system effect boundary (open, each partial write chunk, close, rename, mkdir; per-record for TFRecord) of a seeded crashing session is a crash point at which the directory is re-opened, walked, digested and fully iterated; torn writes come from a chunking raw-file layer; a concurrent reader task is interleaved by the scheduler; tens of thousands of crash instants per quick run", "crash = process death with the OS up (no fsync/power-loss reordering); TensorFlow's C++ writes are not chunked", "deterministic simulation with fault injection: crash at every FS-effect boundary + torn writes + interleaved reader", "3/C06"),
  "C04": ("E-sess", "exploration", "seeded histories of completed sessions (root / fresh, reused and nested sub-directories / multi-writer calls under simulated worker interleavings, reopen or keep) with an independent plain-json walker and a full decode of every shard after every session; hundreds of distinct histories per quick run", "reference walker and per-format shard decoder are trusted; SimPool is a stub for multiprocessing.Pool; TFRecord I/O not intercepted", "deterministic simulation (seeded session histories + simulated process pool) against an independent metadata walker", "3/C04"),
  "C08": ("E-sess", "exploration", "seeded session histories with reopen against a reference model (multiset per split, byte-exact), every session kind of the statement; Dataset.create over an existing dataset must raise and leave the tree byte-identical", "reference model trusted; SimPool stub; one live handle at a time", "deterministic simulation (seeded session histories with restart) against a reference model", "3/C08"),
  "C10": ("E-sess", "exploration", "invariant over every recorded shard after every session of seeded histories with counts around multiples of examples_per_shard, interleaved splits and metadata changes", "no schedule dimension of its own (stated in DESIGN.md): the simulator contributes generated histories and multi-writer interleavings", "deterministic simulation harness as history generator + invariant over recorded shards", "3/C10"),
@@ -16,6 +19,8 @@ CHECKS = {
 }
 ENGINES = [
  {"name": "E-pool", "path": "simlib/sched.py", "serves_properties": ["C13"], "kind_free_text": "baton scheduler: real OS threads, one runnable at a time, seeded choice at every queue/lock/sleep/line yield point, exact deadlock detection"},
+ {"name": "E-read", "path": "simlib/eread.py", "serves_properties": ["C02", "C03"], "kind_free_text": "iteration interfaces over generated datasets: LazyPool on the baton scheduler, SimExecutor, virtual-time asyncio loop (simlib/simloop.py), real Rust extension and tf.data uncontrolled"},
+ {"name": "E-crash", "path": "simlib/ecrash.py", "serves_properties": ["C06"], "kind_free_text": "E-sess + crash oracle at every FS-effect boundary, torn writes, interleaved reader task"},
  {"name": "E-sess", "path": "simlib/esess.py", "serves_properties": ["C04", "C08", "C10", "C11"], "kind_free_text": "seeded session-history generator + reference model; real sedpack on tmpfs behind the instrumented FS seam; multi-writer calls on a simulated process pool"},
 ]
 
